@@ -102,7 +102,7 @@ example : RefOk 4200000000 180 16909060
   intro p hp
   simp at hp
   rcases hp with rfl | rfl | rfl | rfl <;> (constructor <;> (try decide)) <;>
-    (intro c hc; simp at hc; rcases hc with rfl | rfl | rfl <;> simp [CapOk, afiSafiKnown])
+    (intro c hc; simp at hc; rcases hc with rfl | rfl | rfl <;> simp [CapOk])
 
 end Yabgp
 
@@ -235,7 +235,7 @@ theorem capAp_ref (c : LocalCaps) (b : Bytes) (h : capAp c = some b) :
       constructor
       · intro x hx; simp at hx; subst hx
         refine ⟨?_, by simp⟩
-        intro t ht; simp at ht; subst ht; exact ⟨by simp [afiSafiKnown], hok.1, hok.2⟩
+        intro t ht; simp at ht; subst ht; exact ⟨by show 1 < 65536; omega, by show 1 < 256; omega, by have := hok.2; show v < 256; omega⟩
       · simp [encCap, Cap.value, Cap.code]
     · simp at h
 
